@@ -1,8 +1,10 @@
 package props
 
 import (
+	"bytes"
 	"encoding/json"
 	"fmt"
+	"strings"
 	"testing"
 
 	"github.com/brutella/hc"
@@ -28,7 +30,7 @@ type C05SysScenario struct {
 	Sched []uint16 `json:"sched"`
 }
 
-var c05SysKinds = []string{"flip", "flip", "lenbit", "tagbit", "trunc", "dropframe", "dupframe", "swapframes", "replay-earlier", "reflect", "junk"}
+var c05SysKinds = []string{"replay-session", "replay-session", "flip", "flip", "lenbit", "tagbit", "trunc", "dropframe", "dupframe", "swapframes", "replay-earlier", "reflect", "junk"}
 
 func genC05Sys(rt *rapid.T) *C05SysScenario {
 	sc := &C05SysScenario{Seed: rapid.Uint64().Draw(rt, "seed")}
@@ -109,7 +111,7 @@ func runC05Sys(t *testing.T, sc *C05SysScenario) *Outcome {
 			}
 		})
 		s.Extra = func() []core.Action {
-			if !arm || altered || conn == nil {
+			if !arm || altered || conn == nil || sc.Kind == "replay-session" {
 				return nil
 			}
 			fl := conn.InFlight(0)
@@ -180,6 +182,58 @@ func runC05Sys(t *testing.T, sc *C05SysScenario) *Outcome {
 			o.Harness = err.Error()
 			return o
 		}
+		if sc.Kind == "replay-session" && fail == "" && conn != nil && done {
+			// cross-session replay: everything the controller ever sent (verify start, finish, encrypted
+			// requests) is sent again, byte for byte, on a new connection
+			before := len(callbacks)
+			recorded := append([]byte(nil), conn.Sent[0]...)
+			rdone := false
+			s.Go("replayer", func() {
+				defer func() { rdone = true }()
+				c2 := s.Dial(s.Listener, "")
+				rc := &ref.Client{Conn: c2.Client(), Rand: w.Rand}
+				// the two plaintext requests of the handshake are replayed one at a time (as the
+				// controller sent them), then all the recorded ciphertext
+				rest := recorded
+				for i := 0; i < 2; i++ {
+					n := httpRequestLen(rest)
+					if n <= 0 {
+						return
+					}
+					w.Step("replayer", "replay handshake request")
+					if rc.SendRaw(rest[:n]) != nil {
+						return
+					}
+					rest = rest[n:]
+					if _, err := rc.Recv(); err != nil {
+						return
+					}
+				}
+				w.Step("replayer", "replay the recorded ciphertext")
+				rc.SendRaw(rest)
+				buf := make([]byte, 4096)
+				for {
+					if _, err := c2.Client().Read(buf); err != nil {
+						return
+					}
+				}
+			})
+			s.Run(func() bool { return rdone })
+			s.Run(nil)
+			o.Stats["fault.sys.replay-session"]++
+			altered = true
+			if len(callbacks) != before {
+				violate("replayed-session-executed", "the recorded session of the controller, replayed on a new connection, was executed again: %d writes took effect a second time", len(callbacks)-before)
+			}
+			if fail != "" {
+				o.Violation = "C05:sys-" + failSig
+				o.Sig = "sys-" + failSig
+				o.Detail = fail
+			}
+			o.Nontrivial = true
+			o.Shape = fmt.Sprintf("sys|%v|replay-session|%d|%x", sc.Reqs, len(callbacks), s.Hash())
+			return o
+		}
 		// oracle: the callbacks are 1, 2, ..., j with j <= the number of requests that arrived unaltered
 		limit := len(sc.Reqs)
 		if altered {
@@ -218,6 +272,24 @@ func runC05Sys(t *testing.T, sc *C05SysScenario) *Outcome {
 		o.Shape = fmt.Sprintf("sys|%v|%d|%s|%d|%x", sc.Reqs, sc.After, sc.Kind, len(callbacks), s.Hash())
 		return o
 	})
+}
+
+// httpRequestLen returns the length of the first HTTP request (head and Content-Length body) in b, 0 if incomplete.
+func httpRequestLen(b []byte) int {
+	i := bytes.Index(b, []byte("\r\n\r\n"))
+	if i < 0 {
+		return 0
+	}
+	n := 0
+	for _, l := range strings.Split(string(b[:i]), "\r\n") {
+		if strings.HasPrefix(strings.ToLower(l), "content-length:") {
+			fmt.Sscanf(strings.TrimSpace(l[len("content-length:"):]), "%d", &n)
+		}
+	}
+	if len(b) < i+4+n {
+		return 0
+	}
+	return i + 4 + n
 }
 
 func joinFrames(fs [][]byte) []byte {
